@@ -97,7 +97,7 @@ theorem c04_refine (ops : List (Op V)) (q : List String) (g : List V) :
 -- non-vacuity: a history with a front insertion, a fix that drops the bounds and a rejected float
 example : (PSet.run (PSet.empty : PSet Int)
     [.add ⟨"a", 1, some 0, some 2, none⟩ false, .add ⟨"b", 5, none, none, none⟩ true,
-     .fix [("a", some 7)], .float [("a", (none, none, none))]]).fixedNames = ["b", "a"] := by decide
+     .fix [("a", .val 7)], .float [("a", (none, none, none))]]).fixedNames = ["b", "a"] := by decide
 
 /-! ## rejected edits -/
 
@@ -187,7 +187,7 @@ example : (PSet.empty : PSet Int).step (.add ⟨"a", 3, some 0, some 2, none⟩ 
 
 /-- `make_params_fixed` / `make_params_floating`, accepted: exactly the named parameters are changed
 (by `Parameter.make_fixed` / `make_floating`), every other parameter and the order stay. -/
-theorem c04_fix_result (s : PSet V) (hs : Coherent s) (req : List (String × Option V))
+theorem c04_fix_result (s : PSet V) (hs : Coherent s) (req : List (String × FixVal V))
     (h : (s.makeParamsFixed req).2 = .ok ()) :
     (s.makeParamsFixed req).1.params = s.params.map (applyF (PSet.fixF req)) :=
   (editAll_coherent _ (fun p p' h => (fixF_name req p p' h).1)
@@ -203,14 +203,14 @@ theorem c04_float_result (s : PSet V) (hs : Coherent s) (req : List (String × P
 does **not** have the property: fixing the already fixed `b` in `[a floating, b fixed]` is rejected
 and leaves name lists that no longer contain `b`. -/
 theorem c04_unvalidated_counterexample :
-    ¬ (∀ (s : PSet Int) (req : List (String × Option Int)) (e : Err), Coherent s →
+    ¬ (∀ (s : PSet Int) (req : List (String × FixVal Int)) (e : Err), Coherent s →
         (PSet.editAllUnvalidated (PSet.fixF req) s).2 = .error e →
         (PSet.editAllUnvalidated (PSet.fixF req) s).1 = s) := by
   intro h
   have hs : Coherent (PSet.run (PSet.empty : PSet Int)
       [.add ⟨"a", 1, some 0, some 2, none⟩ false, .add ⟨"b", 5, none, none, none⟩ false]) :=
     C04.run_coherent _ _ c04_inv_init
-  have := h _ [("b", some 3)] .valueError hs (by decide)
+  have := h _ [("b", .val 3)] .valueError hs (by decide)
   revert this
   decide
 
@@ -636,10 +636,10 @@ def s2 : PSet Int := PSet.run PSet.empty
 example : Coherent s2 := C04.run_coherent _ _ c04_inv_init
 example : s2.params.map (·.name) = ["b", "a"] := by decide
 example : (s2.step (.add ⟨"a", 1, some 0, some 2, none⟩ true)).2 = .error .keyError := by decide
-example : (s2.makeParamsFixed [("a", some 7)]).2 = .ok () ∧
-    (s2.makeParamsFixed [("a", some 7)]).1.fixedVals = [5, 7] := by decide
+example : (s2.makeParamsFixed [("a", .val 7)]).2 = .ok () ∧
+    (s2.makeParamsFixed [("a", .val 7)]).1.fixedVals = [5, 7] := by decide
 -- rejected request in the middle of the list: nothing changes (c04_reject_leaves_state)
-example : (s2.step (.fix [("a", some 1), ("b", some 1)])) = (s2, .error .valueError) := by decide
+example : (s2.step (.fix [("a", .val 1), ("b", .val 1)])) = (s2, .error .valueError) := by decide
 
 -- a mapper with a non-source model first; the second map re-uses the local name "gamma" for s1
 def m3 : PMM Int := (PMM.create [("d", false), ("s0", true), ("s1", true)]).run
@@ -728,10 +728,315 @@ theorem c04_probe_of_coherent {s : PSet V} (hs : Coherent s) (xs : List V) :
 -- non-vacuity: move the value of `a` to 0 inside [0,2], fix with the None form: initial = value = 0,
 -- the old initial 1 is rejected, the fixed value 0 accepted; re-floating starts from 0
 example : ((PSet.run (PSet.empty : PSet Int)
-    [.add ⟨"a", 1, some 0, some 2, none⟩ false, .setv "a" 0, .fix [("a", none)]]).params.map
+    [.add ⟨"a", 1, some 0, some 2, none⟩ false, .setv "a" 0, .fix [("a", .cur)]]).params.map
       (fun p => (p.initial, p.value, p.isfixed, p.accepts 1, p.accepts 0))) = [(0, 0, true, false, true)] := by
   decide
 example : ((PSet.run (PSet.empty : PSet Int)
-    [.add ⟨"a", 1, some 0, some 2, none⟩ false, .setv "a" 0, .fix [("a", none)],
+    [.add ⟨"a", 1, some 0, some 2, none⟩ false, .setv "a" 0, .fix [("a", .cur)],
      .float [("a", (none, none, none))]]).params.map (fun p => (p.initial, p.value, p.isfixed))) =
     [(0, 0, false)] := by decide
+
+/-! ## Review round: the specification machine `Spec.step` and the simulation theorem -/
+
+/-- `add_param`: a new name is accepted and the parameter is put at the front / at the back -/
+theorem c04_add_result (s : PSet V) (hs : Coherent s) (p : Param V) (hp : ParamWF p) (front : Bool)
+    (hn : p.name ∉ s.params.map (·.name)) :
+    ∃ s', s.addParam p front = .ok s' ∧ s'.params = if front then p :: s.params else s.params ++ [p] := by
+  obtain ⟨s', h, _, hp'⟩ := addParam_ok hs hp front hn
+  exact ⟨s', h, hp'⟩
+
+/-- `union(a, b)`: the parameters of `a` in their order, then those of `b` whose name is new -/
+theorem c04_union_result (a b : PSet V) (ha : Coherent a) (hb : Coherent b) :
+    ∃ u, PSet.union a b = .ok u ∧
+      u.params = a.params ++ b.params.filter (fun p => !(a.params.map (·.name)).contains p.name) := by
+  obtain ⟨u, h, _, hp⟩ := union_params ha hb
+  exact ⟨u, h, hp⟩
+
+/-- the value setter inside a set: exactly the named parameter gets the value, the others stay -/
+theorem c04_setv_result (s : PSet V) (hs : Coherent s) (n : String) (v : V) (h : (s.setValue n v).2 = .ok ()) :
+    (s.setValue n v).1.params = s.params.map (fun p => if p.name = n then { p with value := v } else p) := by
+  unfold PSet.setValue at h ⊢
+  rw [setValueAux_spec n v s.params hs.nodup] at h ⊢
+  cases hf : s.params.find? (fun p => p.name = n) with
+  | none => rw [hf] at h; cases h
+  | some p =>
+    rw [hf] at h
+    simp only at h ⊢
+    cases hsv : p.setValue v with
+    | error e => rw [hsv] at h; cases h
+    | ok p' => rfl
+
+/-- **simulation**: from a coherent state every edit produces exactly the parameter list and the
+outcome (accepted / rejected with which error) that the specification machine `Spec.step` — a function
+of the bare list only — prescribes. -/
+theorem c04_simulates (s : PSet V) (hs : Coherent s) (op : Op V) :
+    ((s.step op).1.params, (s.step op).2) = Spec.step s.params op := by
+  cases op with
+  | add a front =>
+    simp only [PSet.step, Spec.step]
+    cases hc : a.create with
+    | error e => rfl
+    | ok p =>
+      simp only
+      have hp := (create_wf (show Param.create _ _ _ _ _ = _ from hc)).1
+      by_cases hn : p.name ∈ s.params.map (·.name)
+      · rw [addParam_dup hs p front hn, if_pos (List.contains_iff_mem.2 hn)]
+        rfl
+      · obtain ⟨s', h, _, hp'⟩ := addParam_ok hs hp front hn
+        rw [h, if_neg (fun hc => hn (List.contains_iff_mem.1 hc))]
+        simp only [liftE, hp']
+  | fix req =>
+    exact editAll_simulates _ (fun p p' h => (fixF_name req p p' h).1)
+      (fun p p' h => (fixF_name req p p' h).2) hs
+  | float req =>
+    exact editAll_simulates _ (fun p p' h => (floatF_name req p p' h).1)
+      (fun p p' h => (floatF_name req p p' h).2) hs
+  | setv n v =>
+    simp only [PSet.step, Spec.step, PSet.setValue]
+    rw [setValueAux_spec n v s.params hs.nodup]
+    cases s.params.find? (fun p => p.name = n) with
+    | none => rfl
+    | some p =>
+      simp only
+      cases p.setValue v with
+      | error e => rfl
+      | ok p' => rfl
+  | union other left =>
+    simp only [PSet.step, Spec.step]
+    cases hc : createAll other with
+    | error e => rfl
+    | ok os =>
+      simp only
+      have hw := createAll_wf hc
+      by_cases hnd : (os.map (·.name)).Nodup
+      · rw [if_pos hnd]
+        obtain ⟨t, ht, htc, htp⟩ := addAll_params (s := PSet.empty) (ps := os) coherent_empty hw
+          (by simpa [PSet.empty] using hnd)
+        have htp' : t.params = os := by simpa [PSet.empty] using htp
+        rw [ht]
+        simp only
+        cases left
+        · obtain ⟨u, hu, _, hup⟩ := union_params htc hs
+          simp only [Bool.false_eq_true, if_false, hu, liftE, hup, htp']
+        · obtain ⟨u, hu, _, hup⟩ := union_params hs htc
+          simp only [if_true, hu, liftE, hup, htp']
+      · rw [if_neg hnd, addAll_dup (s := PSet.empty) coherent_empty hw (by simpa [PSet.empty] using hnd)]
+  | copy => rfl
+  | map a models al => rfl
+
+/-- **refinement against the specification machine**: after any history the parameter list is the one
+the specification machine reaches from the empty list, and (with `c04_refine`) every view computed from
+the caches is the view of *that* list. -/
+theorem c04_refine_spec (ops : List (Op V)) (q : List String) (g : List V) :
+    (PSet.run (PSet.empty : PSet V) ops).params = Spec.run [] ops ∧
+    (PSet.run (PSet.empty : PSet V) ops).views q g = Spec.views (Spec.run [] ops) q g := by
+  have key : ∀ (s : PSet V), Coherent s → (PSet.run s ops).params = Spec.run s.params ops := by
+    induction ops with
+    | nil => intro s _; rfl
+    | cons op ops ih =>
+      intro s hs
+      have h := congrArg Prod.fst (c04_simulates s hs op)
+      simp only at h
+      simp only [PSet.run, Spec.run, ← h]
+      exact ih _ (c04_inv_step s op hs)
+  have h1 := key PSet.empty c04_inv_init
+  have h1' : (PSet.run (PSet.empty : PSet V) ops).params = Spec.run [] ops := h1
+  exact ⟨h1', by rw [← h1']; exact (c04_refine ops q g).2⟩
+
+example : Spec.run ([] : List (Param Int))
+    [.add ⟨"a", 1, some 0, some 2, none⟩ false, .add ⟨"b", 5, none, none, none⟩ true,
+     .union [⟨"c", 2, none, none, none⟩, ⟨"a", 9, none, none, none⟩] true, .setv "a" 2]
+    = [⟨"b", 5, true, none, none, 5⟩, ⟨"a", 1, false, some 0, some 2, 2⟩, ⟨"c", 2, true, none, none, 2⟩] := by
+  decide
+
+/-! ### rejections at the level of the set -/
+
+/-- a request that names an already fixed parameter is rejected as a whole and nothing changes -/
+theorem c04_reject_fix_fixed (s : PSet V) (req : List (String × FixVal V)) (p : Param V) (hp : p ∈ s.params)
+    (hf : p.isfixed = true) (hr : (dget req p.name).isSome = true) :
+    ∃ e, s.makeParamsFixed req = (s, .error e) := by
+  have hv : ∀ ps : List (Param V), p ∈ ps → ∃ e, PSet.validate (PSet.fixF req) ps = .error e := by
+    intro ps
+    induction ps with
+    | nil => intro h; cases h
+    | cons q ps ih =>
+      intro hq
+      unfold PSet.validate
+      cases hfq : PSet.fixF req q with
+      | error e => exact ⟨e, rfl⟩
+      | ok r =>
+        simp only
+        rcases List.mem_cons.1 hq with h1 | h1
+        · subst h1
+          unfold PSet.fixF at hfq
+          cases hd : dget req p.name with
+          | none => rw [hd] at hr; cases hr
+          | some x => rw [hd] at hfq; simp [hf] at hfq
+        · exact ih h1
+  obtain ⟨e, he⟩ := hv s.params hp
+  exact ⟨e, by unfold PSet.makeParamsFixed PSet.editAll; rw [he]⟩
+
+/-- changing the value of a fixed parameter of a set is rejected and nothing changes -/
+theorem c04_reject_fixed_change_in_set (s : PSet V) (hs : Coherent s) (p : Param V) (hp : p ∈ s.params)
+    (hf : p.isfixed = true) (v : V) (hv : v ≠ p.value) : s.setValue p.name v = (s, .error .valueError) := by
+  have hfind : s.params.find? (fun q => q.name = p.name) = some p := by
+    have hnd := hs.nodup
+    generalize s.params = ps at hp hnd
+    induction ps with
+    | nil => cases hp
+    | cons q ps ih =>
+      rw [List.map_cons, List.nodup_cons] at hnd
+      rcases List.mem_cons.1 hp with h1 | h1
+      · subst h1; simp
+      · have : q.name ≠ p.name := fun h => hnd.1 (by rw [h]; exact List.mem_map_of_mem h1)
+        simp only [List.find?_cons, this, decide_false]
+        exact ih h1 hnd.2
+  have hrej : p.setValue v = .error .valueError :=
+    c04_reject_fixed_change p v hf (by rw [← (hs.wf p hp).1 hf]; exact hv)
+  unfold PSet.setValue
+  rw [setValueAux_spec p.name v s.params hs.nodup, hfind]
+  simp only [hrej]
+
+/-- a `make_params_floating` request whose (given or current) initial value lies outside the (given or
+kept) bounds is rejected as a whole and nothing changes -/
+theorem c04_reject_float_bounds_in_set (s : PSet V) (req : List (String × PSet.FloatEntry V)) (p : Param V)
+    (hp : p ∈ s.params) (ini vmin vmax : Option V) (lo hi : V)
+    (hreq : dget req p.name = some (ini, vmin, vmax)) (hlo : vmin.or p.valmin = some lo)
+    (hhi : vmax.or p.valmax = some hi) (hv : ini.getD p.value < lo ∨ hi < ini.getD p.value) :
+    ∃ e, s.makeParamsFloating req = (s, .error e) := by
+  have hfp : ∃ e, PSet.floatF req p = .error e := by
+    unfold PSet.floatF
+    rw [hreq]
+    simp only
+    by_cases hf : (!p.isfixed) = true
+    · exact ⟨_, by rw [if_pos hf]⟩
+    · rw [if_neg hf, c04_reject_bounds_make_floating p ini vmin vmax lo hi hlo hhi hv]
+      exact ⟨_, rfl⟩
+  have hvld : ∀ ps : List (Param V), p ∈ ps → ∃ e, PSet.validate (PSet.floatF req) ps = .error e := by
+    intro ps
+    induction ps with
+    | nil => intro h; cases h
+    | cons q ps ih =>
+      intro hq
+      unfold PSet.validate
+      cases hfq : PSet.floatF req q with
+      | error e => exact ⟨e, rfl⟩
+      | ok r =>
+        simp only
+        rcases List.mem_cons.1 hq with h1 | h1
+        · subst h1
+          obtain ⟨e, he⟩ := hfp
+          rw [he] at hfq; cases hfq
+        · exact ih h1
+  obtain ⟨e, he⟩ := hvld s.params hp
+  exact ⟨e, by unfold PSet.makeParamsFloating PSet.editAll; rw [he]⟩
+
+example : ∃ e, C04.Examples.s2.makeParamsFixed [("b", .val 1)] = (C04.Examples.s2, .error e) :=
+  c04_reject_fix_fixed _ _ C04.Examples.b (by decide) rfl (by decide)
+
+/-! ### source selection, field names and the whole record array -/
+
+/-- **`get_src_model_idxs`**: exactly the positions of the source models, restricted to the requested
+ones when a selection is given (the function that carried defect 5913c1e) … -/
+theorem c04_src_model_idxs (s : PMM V) (sel : Option (List Nat)) (i : Nat) :
+    i ∈ s.srcModelIdxs sel ↔
+      (∃ m, s.models[i]? = some m ∧ m.2 = true) ∧ (∀ l, sel = some l → i ∈ l) := by
+  have hall : ∀ i, i ∈ (List.range s.nModels).filter s.isSourceAt ↔
+      ∃ m, s.models[i]? = some m ∧ m.2 = true := by
+    intro i
+    rw [List.mem_filter, List.mem_range]
+    unfold PMM.isSourceAt
+    constructor
+    · rintro ⟨_, h⟩
+      cases hm : s.models[i]? with
+      | none => rw [hm] at h; cases h
+      | some m => rw [hm] at h; exact ⟨m, rfl, h⟩
+    · rintro ⟨m, hm, h2⟩
+      refine ⟨?_, by rw [hm]; exact h2⟩
+      have := (List.getElem?_eq_some_iff.1 hm).1
+      simpa [PMM.nModels] using this
+  unfold PMM.srcModelIdxs
+  cases sel with
+  | none =>
+    dsimp only
+    rw [hall i]
+    exact ⟨fun h => ⟨h, fun l hl => by cases hl⟩, fun h => h.1⟩
+  | some l =>
+    dsimp only
+    rw [List.mem_filter, hall i, List.contains_iff_mem]
+    constructor
+    · rintro ⟨h1, h2⟩; exact ⟨h1, fun l' hl => by cases hl; exact h2⟩
+    · rintro ⟨h1, h2⟩; exact ⟨h1, h2 l rfl⟩
+
+/-- … in increasing model order, each once -/
+theorem c04_src_model_idxs_sorted (s : PMM V) (sel : Option (List Nat)) :
+    (s.srcModelIdxs sel).Pairwise (· < ·) := by
+  unfold PMM.srcModelIdxs
+  cases sel with
+  | none => exact List.Pairwise.filter _ List.pairwise_lt_range
+  | some l => exact List.Pairwise.filter _ (List.Pairwise.filter _ List.pairwise_lt_range)
+
+/-- a local name nobody is mapped under is "not applicable" -/
+theorem c04_cell_none (f : String) (ps : List (Param V)) (row : List (Option String)) (j k : Nat) (g : List V)
+    (h : some f ∉ row) : Spec.cell f ps row j k g = none := by
+  induction ps generalizing row j k g with
+  | nil => cases row <;> rfl
+  | cons p ps ih =>
+    cases row with
+    | nil => rfl
+    | cons r row =>
+      have hr : r ≠ some f := fun hr => h (by rw [hr]; simp)
+      have hrow : some f ∉ row := fun hm => h (List.mem_cons_of_mem _ hm)
+      unfold Spec.cell
+      by_cases hf : p.isfixed = true
+      · simp only [hf, if_true, hr, if_false]; exact ih row _ _ _ hrow
+      · have hf' : p.isfixed = false := by simpa using hf
+        simp only [hf', Bool.false_eq_true, if_false]
+        cases g with
+        | nil => rfl
+        | cons v g' => simp only [hr, if_false]; exact ih row _ _ _ hrow
+
+theorem C04.srcRows_ok (s : PMM V) (g : List V) (fields : List String) (is : List Nat)
+    (h : ∀ i ∈ is, ∃ c, s.srcRow g fields i = .ok (i, c)) :
+    ∃ rows, s.srcRows g fields is = .ok rows ∧ rows.map (·.1) = is ∧
+      ∀ r ∈ rows, s.srcRow g fields r.1 = .ok r := by
+  induction is with
+  | nil => exact ⟨[], rfl, rfl, by simp⟩
+  | cons i is ih =>
+    obtain ⟨c, hc⟩ := h i (by simp)
+    obtain ⟨rows, h1, h2, h3⟩ := ih (fun j hj => h j (by simp [hj]))
+    refine ⟨(i, c) :: rows, ?_, by simp [h2], ?_⟩
+    · unfold PMM.srcRows; rw [hc, h1]
+    · intro r hr
+      rcases List.mem_cons.1 hr with h4 | h4
+      · subst h4; exact hc
+      · exact h3 r h4
+
+/-- **the whole record array**: for a well-formed mapper and a value vector of the right length
+`create_src_params_recarray` does not raise, has the source field names as columns and exactly one row
+per (selected) source model, in model order, tagged with that model's index, each row being the
+specification's row (`c04_src_table`). -/
+theorem c04_src_recarray (s : PMM V) (hw : C04.PMMWF s) (g : List V)
+    (hg : g.length = s.gps.floatNames.length) (sel : Option (List Nat)) :
+    ∃ rows, s.srcParamsRecarray g sel = .ok (s.srcFieldNames, rows) ∧
+      rows.map (·.1) = s.srcModelIdxs sel ∧ rows.length = (s.srcModelIdxs sel).length ∧
+      ∀ r ∈ rows, ∀ row, s.mpn[r.1]? = some row →
+        r.2 = s.srcFieldNames.map (fun f => Spec.cell f s.gps.params row 0 0 g) := by
+  have hrows : ∀ i ∈ s.srcModelIdxs sel, ∃ c, s.srcRow g s.srcFieldNames i = .ok (i, c) := by
+    intro i hi
+    obtain ⟨⟨m, hm, _⟩, _⟩ := (c04_src_model_idxs s sel i).1 hi
+    have hlt : i < s.mpn.length := by
+      rw [hw.rows]; exact (List.getElem?_eq_some_iff.1 hm).1
+    exact ⟨_, c04_src_table s hw g hg s.srcFieldNames i s.mpn[i] (List.getElem?_eq_getElem hlt)⟩
+  obtain ⟨rows, h1, h2, h3⟩ := C04.srcRows_ok s g s.srcFieldNames (s.srcModelIdxs sel) hrows
+  refine ⟨rows, ?_, h2, by rw [← h2, List.length_map], ?_⟩
+  · unfold PMM.srcParamsRecarray
+    rw [if_neg (by simpa using hg)]
+    simp only [h1]
+  · intro r hr row hrow
+    have := h3 r hr
+    rw [c04_src_table s hw g hg s.srcFieldNames r.1 row hrow] at this
+    exact (congrArg Prod.snd (Except.ok.inj this)).symm
+
+example : (C04.Examples.m3.srcModelIdxs (some [1])) = [1] ∧
+    (1 ∈ C04.Examples.m3.srcModelIdxs (some [1, 7])) := by decide
